@@ -174,6 +174,12 @@ func (ev *SpecEnv) eval(e ast.Expr) (Val, types.Type) {
 				if v, t, ok := ev.globalValue(id.Name, x.Sel.Name); ok {
 					return v, t
 				}
+				// a package-level variable of the current package followed by a field (Int8Type.maxInt)
+				if ev.pkg != nil && ev.pkg.Scope().Lookup(id.Name) != nil {
+					if gv, gt, ok := ev.globalValue(ev.pkg.Name(), id.Name); ok {
+						return ev.field(gv, gt, x.Sel.Name, e)
+					}
+				}
 				ev.fail("unknown qualified name %s.%s", id.Name, x.Sel.Name)
 			}
 		}
